@@ -1,4 +1,5 @@
 import SFV.Lemmas.DeployR
+import SFV.Lemmas.DeployL2
 import SFV.Gen.DeployGuards
 /-! # C26 — deployments follow a safe lifecycle under concurrent requests
 
@@ -256,6 +257,61 @@ theorem lazy_connector_undeployed_fixed_schedule :
 
 example : ∃ s, Reachable ⟨false, true⟩ true kindsB s ∧ (s.objs 0).und = .done ∧ s.pc 3 = .done := by
   refine ⟨_, reachable_runActs Reachable.init [.start 1, .start 2, .start 3, .connOk 2, .wake 3, .connOk 3] rfl, ?_, ?_⟩ <;> decide
+
+/-- **no lazily deployed connector is leaked** — general statement for the repaired `FutureConnector.undeploy` (3778dfe), any
+    number of concurrent deploy / undeploy / use requests, every interleaving (invariant `InvL`, `Lemmas/DeployL*.lean`): a
+    connector object created by a `FutureConnector` that is active (its `deploy()` was called and has not failed, its
+    `undeploy()` was not called) is always still within reach of an undeploy — either its future is the entry of
+    `deployments_map`, or an undeploy request is waiting inside `FutureConnector.undeploy` for that very deploy and will
+    undeploy the connector when it wakes -/
+theorem lazy_connector_never_leaked {cfg : Cfg} (hw : cfg.futWaits = true) {lazy kinds s} (h : Reachable cfg lazy kinds s)
+    (o f : Nat) (hf : (s.objs o).fut = some f) (ha : (s.objs o).active = true) :
+    s.depmap = some (.future f) ∨ ∃ p e, s.pc p = .uFWait f e ∨ s.pc p = .uFWoken f e :=
+  (invL_reachable hw h).2.2.2.2.2.2 o f hf ha
+
+/-- at rest — the name is not deployed and no request is inside `FutureConnector.undeploy` — no connector created by a
+    `FutureConnector` is active, for the code as it is (`Gen.deployCfg = codeCfg`); before 3778dfe the state of
+    `lazy_connector_leaked_false_before_3778dfe` (all requests done, connector live, map empty) was reachable -/
+theorem lazy_connector_not_leaked_at_rest {kinds s} (h : Reachable codeCfg true kinds s) (hd : s.depmap = none)
+    (hq : ∀ p f e, s.pc p ≠ .uFWait f e ∧ s.pc p ≠ .uFWoken f e) (o f : Nat) (hf : (s.objs o).fut = some f) :
+    (s.objs o).active = false := by
+  cases ha : (s.objs o).active with
+  | false => rfl
+  | true =>
+    rcases lazy_connector_never_leaked (cfg := codeCfg) rfl h o f hf ha with h1 | ⟨p, e, h2⟩
+    · rw [hd] at h1; cases h1
+    · have := hq p f e; rcases h2 with h2 | h2 <;> simp_all
+
+/-- non-vacuity: the second alternative is used — after `[deploy, use (deploy in flight), undeploy]` the connector is active,
+    the map is empty and request 3 waits for the deploy; and the at-rest theorem's hypotheses hold in the final state of the
+    repaired schedule -/
+example : ∃ s, Reachable codeCfg true kindsB s ∧ (s.objs 0).active = true ∧ (s.objs 0).fut = some 0 ∧ s.depmap = none ∧
+    s.pc 3 = .uFWait 0 0 := by
+  refine ⟨_, reachable_runActs Reachable.init [.start 1, .start 2, .start 3] rfl, ?_, ?_, ?_, ?_⟩ <;> decide
+
+
+/-! ### open findings of the repaired code (witnesses; thorough tier of the correspondence check finds the same schedules) -/
+
+/-- **open finding — false for the code as it is**: `undeploy` does not re-validate after its event wait. `deploy(D)` (1) in flight,
+    `undeploy(D)` (2) and (3) wait for it; it completes and wakes both; (2) undeploys connector 0; `deploy(D)` (4) registers `D` anew and
+    starts deploying connector 1; (3) — woken long ago — goes on without re-checking and calls `undeploy()` on connector 1, whose
+    `deploy()` is still running -/
+theorem stale_woken_undeploy_hits_redeployed_connector_false :
+    ∃ s, Reachable codeCfg false (fun p => if p = 1 ∨ p = 4 then some .deploy else if p = 2 ∨ p = 3 then some .undeploy else none) s ∧
+      Bad.undeployNotDeployed 1 ∈ s.bad ∧ (s.objs 1).dep = .deploying ∧ (s.objs 1).und = .undeploying := by
+  refine ⟨_, reachable_runActs Reachable.init [.start 1, .start 2, .start 3, .connOk 1, .wake 2, .start 4, .wake 3] rfl, ?_, ?_, ?_⟩ <;>
+    decide
+
+/-- **open finding — false for the code as it is** (a consequence of repair 3778dfe): the repaired `FutureConnector.undeploy` defers the
+    connector's undeploy until its deploy has finished, but the manager has already released the name. `deploy` (1) registers the
+    future, `use` (2) starts the real deploy, `undeploy` (3) removes the future and waits, `deploy` (4) registers a new future, the first
+    deploy completes, `use` (5) deploys a second connector through the new future while the first one is live and its undeploy is
+    still pending -/
+theorem lazy_redeploy_overlaps_deferred_undeploy_false :
+    ∃ s, Reachable codeCfg true (fun p => if p = 1 ∨ p = 4 then some .deploy else if p = 2 ∨ p = 5 then some .use
+                                           else if p = 3 then some .undeploy else none) s ∧
+      (s.objs 0).live = true ∧ (s.objs 1).active = true ∧ s.pc 3 = .uFWoken 0 0 := by
+  refine ⟨_, reachable_runActs Reachable.init [.start 1, .start 2, .start 3, .start 4, .connOk 2, .start 5] rfl, ?_, ?_, ?_⟩ <;> decide
 
 /-! ### non-vacuity -/
 
